@@ -105,6 +105,8 @@ type SymEval struct {
 	UnsignedSub bool
 	// Subs collects the unsigned subtractions met.
 	Subs []*ssa.BinOp
+	// MinArithBits is the smallest bit width of an integer addition/subtraction/multiplication met (0 = none).
+	MinArithBits int
 	pv   Prov
 }
 
@@ -164,6 +166,13 @@ func (e *SymEval) eval(v ssa.Value, depth int) Lin {
 	case *ssa.ChangeType:
 		return e.eval(x.X, depth+1)
 	case *ssa.BinOp:
+		if x.Op == token.ADD || x.Op == token.SUB || x.Op == token.MUL {
+			if b, ok := x.Type().Underlying().(*types.Basic); ok {
+				if w := basicBits(b); w > 0 && (e.MinArithBits == 0 || w < e.MinArithBits) {
+					e.MinArithBits = w
+				}
+			}
+		}
 		switch x.Op {
 		case token.ADD:
 			return e.eval(x.X, depth+1).Add(e.eval(x.Y, depth+1))
@@ -204,4 +213,18 @@ func (e *SymEval) eval(v ssa.Value, depth int) Lin {
 		}
 	}
 	return e.atom(v)
+}
+
+func basicBits(b *types.Basic) int {
+	switch b.Kind() {
+	case types.Int8, types.Uint8:
+		return 8
+	case types.Int16, types.Uint16:
+		return 16
+	case types.Int32, types.Uint32:
+		return 32
+	case types.Int, types.Uint, types.Int64, types.Uint64, types.Uintptr:
+		return 64
+	}
+	return 0
 }
